@@ -270,9 +270,14 @@ func (p *parser) reduce() (err error) {
 }
 
 func parseLiteral(token lex.Token) (e any, err error) {
-	// if it is a quote then remove escape
+	// if it is a quote then remove the delimiting double quotes. A single quoted phrase keeps
+	// its quotes, and any double quotes inside of it are part of the value.
 	if token.Typ == lex.TQuoted {
-		return expr.Lit(strings.ReplaceAll(token.Val, "\"", "")), nil
+		val := token.Val
+		if len(val) >= 2 && val[0] == '"' && val[len(val)-1] == '"' {
+			val = val[1 : len(val)-1]
+		}
+		return expr.Lit(val), nil
 	}
 
 	// if it is a regexp then parse it
